@@ -1,5 +1,6 @@
 import JF.Lemmas.SystemRun
 import JF.Lemmas.SystemRunGeo
+import JF.Lemmas.SystemRunMotion
 import JF.Props.Footprints
 /-!
 The composed system for the concrete coulomb_atoms world — definitions of its runs and of the joint invariant, and the induction
@@ -21,11 +22,13 @@ open JF JF.Act JF.Heap JF.Sched JF.Med JF.CW JF.C14 JF.MediatorLoop JF.Kin
 section defs
 variable (env : Env ℚ) (geo : Geo env) (c : Wiring) (S : TaggerIdx) (needs : HandlerId → Bool)
 
-/-- side conditions of a committed event (C07's admissibility, with the velocities of the geometry) -/
+/-- side conditions of a committed event (C07's admissibility `Adm` with the velocities of the geometry, and C07's `Smooth` for
+the cell-boundary event: the coordinate it writes is congruent modulo the box length to the time-sliced coordinate it
+overwrites — in the exact reading the boundary IS the time-sliced coordinate, `JF.C11.boundary_pos`, last clause) -/
 def EvAdm (us : List (PUnit ℚ)) : Kin.Ev ℚ → Prop
   | .start _ a v => a < us.length ∧ geo.velOK v ∧ ∀ u ∈ us, u.vel = none
   | .keep _ => True
-  | .snap _ d x => ∀ h : d < env.L.length, 0 ≤ x ∧ x < env.L[d]
+  | .snap t d x => (∀ h : d < env.L.length, 0 ≤ x ∧ x < env.L[d]) ∧ Smooth env.L us (.snap t d x)
   | .lift _ b => b < us.length
   | .endOfChain _ a v => a < us.length ∧ geo.velOK v
 
@@ -61,6 +64,8 @@ structure Init (s : Sys) : Prop where
   rest : ∀ u ∈ s.us, u.vel = none
   occId : s.occ.activeId = none
   occCell : s.occ.activeCell = none
+  /-- the occupancy is what `initialize` builds from all point masses -/
+  occInit : ∃ cap, s.occ = Occ.init cap (unitsOf env s.us)
   prev : s.usPrev = s.us
 
 /-- the runs of the composed system: any number of legs; no leg after the end-of-run commit -/
@@ -137,6 +142,14 @@ structure Big (cs : List (Committed XTime)) (cl : Committed XTime) (s : Sys)
     (cs.length = 1 ∧ E = S ∧ ∃ ids0 out, first c.wires (initAct c.wires) S
         (fun T => (world env c).yieldOf T ⟨⟨s.usPrev, s.occ⟩, hc⟩) = some (s.mid, out) ∧ s.ids = assign ids0 out)
     ∨ Run c (world env c) (Tr env c) S ⟨s.mid, s.ids, ⟨⟨s.usPrev, s.occ⟩, hc⟩⟩
+  /-- C08 (via the run of C08's machine `Reach8` up to the middle of the last leg, with the concrete motion relation `motionOf`:
+  it carries `Current` — every unit of the in-state of every pending interaction / cell-veto handler still moves as it did when
+  the candidate was computed, `born` being the state of that moment) -/
+  cur : ∃ (hc : Consistent env (hasOccOf c) ⟨s.usPrev, s.occ⟩) (born : HandlerId → G env c),
+    C08.Reach8 c.wires (world env c) (motionOf env c) S ⟨⟨s.mid, s.ids, ⟨⟨s.usPrev, s.occ⟩, hc⟩⟩, born⟩
+  wfPrev : ∀ u ∈ s.usPrev, WFU env.L.length u
+  /-- the state the last leg's candidates were computed on: at rest (first leg) or with one mover -/
+  kinPrev : (∀ u ∈ s.usPrev, u.vel = none) ∨ ∃ a0 pos0 v0 ts0, KinI env.L s.usPrev a0 pos0 v0 ts0
   /-- how the global state came from the one the last leg's candidates were computed on -/
   commit : Commits env geo (c.tagger E).kind tl s.usPrev s.us
   /-- C11's mirror for the active unit: in the middle of the last leg the recorded active cell was the cell of its position -/
@@ -151,6 +164,12 @@ structure Big (cs : List (Committed XTime)) (cl : Committed XTime) (s : Sys)
     pendOf (fun _ => none) cs hb = some tb →
     ∃ τ, tb = .fin τ ∧ Normalised τ ∧ ∀ x, val ts ≤ x → x < val τ →
       env.cellOf (sliceVec Ops.rat env.L pos v (x - val ts)) = env.cellOf pos
+
+/-- decidable side condition for the derivation of `CandOK` (E1) for the cell-boundary candidates: a dumping event — whose
+out-state is empty, so that the active unit keeps an older time stamp — does not create a cell-boundary handler -/
+def dumpQuiet (c : Wiring) : Bool :=
+  (List.range c.n).all fun E => (c.tagger E).kind != .dumping ||
+    (c.tagger E).creates.all fun T => (c.tagger T).kind != .cellBoundary
 
 end defs
 
@@ -265,6 +284,85 @@ theorem mid_run (H : Hyp env c S) {cs : List (Committed XTime)} {cl : Committed 
     have := hcommit s.ids
     rw [← st.ids'] at this
     exact Run.step _ _ E _ hrunp (List.ne_nil_of_mem big.running) hend htr this
+
+theorem not_moves_kinds {t : TaggerW} (h : ¬ affects t .motion = true) :
+    t.kind = .sampling ∨ t.kind = .dumping ∨ t.kind = .endOfRun ∨ t.kind = .cellBoundary := by
+  unfold affects at h
+  cases hk : t.kind <;> simp_all
+
+/-- a commit by a tagger that the footprint table does not declare motion-changing keeps every unit's motion -/
+theorem same_of_quiet (ho : env.o = Ops.rat) {us us' : List (PUnit ℚ)} {kind : HandlerKind} {t : Time ℚ}
+    (hwf : ∀ u ∈ us, WFU env.L.length u) (hc : Commits env geo kind t us us')
+    (hq : kind = .sampling ∨ kind = .dumping ∨ kind = .endOfRun ∨ kind = .cellBoundary) (u : Nat) :
+    SameMotion env.L us us' u := by
+  rcases hc with ⟨ev, hal, _, hadm, rfl⟩ | ⟨_, rfl⟩
+  · rw [ho]
+    cases ev with
+    | keep t0 => exact same_keep geo.posBox hwf t0 u
+    | snap t0 d x => exact same_snap geo.posBox hwf t0 d x hadm.2 u
+    | start t0 b w => rcases hq with rfl | rfl | rfl | rfl <;> simp [allowedEv] at hal
+    | lift t0 b => rcases hq with rfl | rfl | rfl | rfl <;> simp [allowedEv] at hal
+    | endOfChain t0 b w => rcases hq with rfl | rfl | rfl | rfl <;> simp [allowedEv] at hal
+  · exact SameMotion.refl _ _ _
+
+/-- C08's machine makes the step that this leg's `get_event_handlers_to_run` is: both hypotheses of `StepOK8` are discharged —
+`quiet` by the kinematics (`same_of_quiet`), clause (h) by `WiringSound` through the run of `JF.Act.Run` -/
+theorem mid_cur (H : Hyp env c S) {cs : List (Committed XTime)} {cl : Committed XTime} {s : Sys} {E : TaggerIdx} {tl : Time ℚ}
+    {a : Nat} {pos v : List ℚ} {ts : Time ℚ} (big : Big env geo c S needs cs cl s E tl a pos v ts)
+    (hgo : cl.stop = false) {o : Oracle XTime} {cm : Committed XTime} {s' : Sys}
+    (st : SysStep env geo c S needs s o cm s') :
+    ∃ (hc' : Consistent env (hasOccOf c) ⟨s.us, s'.occ⟩) (born' : HandlerId → G env c),
+      C08.Reach8 c.wires (world env c) (motionOf env c) S ⟨⟨s'.mid, s'.ids, ⟨⟨s.us, s'.occ⟩, hc'⟩⟩, born'⟩ := by
+  obtain ⟨hc, born, hr8⟩ := big.cur
+  have hocc : occAfter env (hasOccOf c) s.occ s.us = some s'.occ := by
+    have := st.occ1; unfold occNext at this; rw [big.started] at this; simpa using this
+  have hc' : Consistent env (hasOccOf c) ⟨s.us, s'.occ⟩ :=
+    consistent_after (g := ⟨s.usPrev, s.occ⟩) (g' := ⟨s.us, s'.occ⟩) hc hocc
+  obtain ⟨a1, s1, a2, s3, hrun, -⟩ := leg_ok st.leg
+  have hmid : s'.mid = a1.ts := by rw [st.mid']; exact midAct_eq hrun
+  rw [big.prec] at hrun
+  have hupd : update c.wires s.med.act.ts E o.yields = some (a1.ts, cm.created) :=
+    getToRun_started big.started big.owner hrun
+  have hy : (fun T => (world env c).yieldOf T ⟨⟨s.us, s'.occ⟩, hc'⟩) = o.yields := by rw [st.yields]; rfl
+  have hcommit : C08.commit8 c.wires (world env c) ⟨⟨s.mid, s.ids, ⟨⟨s.usPrev, s.occ⟩, hc⟩⟩, born⟩ E ⟨⟨s.us, s'.occ⟩, hc'⟩ =
+      some ⟨⟨s'.mid, s'.ids, ⟨⟨s.us, s'.occ⟩, hc'⟩⟩,
+        fun h => if h ∈ cm.created.map Prod.fst then ⟨⟨s.us, s'.occ⟩, hc'⟩ else born h⟩ := by
+    unfold C08.commit8
+    simp only [hy]
+    rw [← big.trashEq, hupd, hmid, st.ids']
+  have hend : (c.tagger E).kind ≠ .endOfRun := by
+    have := big.stopEq
+    rw [hgo] at this
+    have h2 : (mwire c S needs).endOfRun cl.handler = ((c.tagger E).kind == .endOfRun) := by
+      show (match owner c.wires cl.handler with
+        | some E => (c.tagger E).kind == HandlerKind.endOfRun
+        | none => false) = _
+      rw [big.owner]
+    rw [h2] at this
+    intro hk; rw [hk] at this; simp at this
+  have ok : C08.StepOK8 c.wires (motionOf env c) ⟨⟨s.mid, s.ids, ⟨⟨s.usPrev, s.occ⟩, hc⟩⟩, born⟩ E ⟨⟨s.us, s'.occ⟩, hc'⟩ := by
+    constructor
+    · intro hnm u
+      exact same_of_quiet H.ho big.wfPrev big.commit (not_moves_kinds hnm) u
+    · intro hm T hb
+      obtain ⟨hc0, hph⟩ := big.phase
+      rcases hph with ⟨_, hES, ids0, out, hfirst, _⟩ | hrunp
+      · right
+        subst hES
+        obtain ⟨_, hSk, _⟩ := start_spec H.hS
+        have hne : T ∉ [E] := by
+          intro hTE
+          have : T = E := by simpa using hTE
+          subst this
+          have := hb.2
+          rw [motionBound, hSk] at this; simp at this
+        unfold first at hfirst
+        show (getT s.mid T).running = []
+        rw [createLoop_frame hfirst hne, applyActivation_running, getT_initAct]
+        split <;> rfl
+      · exact run_clause_h c (world env c) (Tr env c) S H.sound H.hS (Footprints.footprintsSound_concrete env c H.sup)
+          (liveIs env c) hrunp (E := E) (List.ne_nil_of_mem big.running) hend hm hb.1 hb.2
+  exact ⟨hc', _, C08.Reach8.step _ _ E _ hr8 ok hcommit⟩
 
 end step
 
